@@ -213,3 +213,11 @@ Example C12_text_nonvacuous :
   | _ => false
   end = true.
 Proof. split; vm_compute; reflexivity. Qed.
+
+(* whatever fuel the parser is given, as long as it does not run out, the parse of such a text is
+   that tree (the fuel is a device of the model, not of pest) *)
+Theorem C12_laid_out_text_parses :
+  forall ds text fuel, reads_as ds text = true -> parse xdr_grammar fuel text <> PFuel ->
+  exists t, parse xdr_grammar fuel text = POk [t] "" /\ erase t = tree_of ds.
+Proof. exact text_parse_any_fuel. Qed.
+Print Assumptions C12_laid_out_text_parses.
